@@ -78,24 +78,41 @@ fn arm_of(r: &Req) -> (u8, usize) {
 
 // model vocabulary: keys of rows, cells of the daily log (1 = Person, 2 = Pet of the main room, 0 = not logged)
 fn k_setup(i: usize) -> u64 { 20000 + i as u64 }
-fn ops_of(r: &Req) -> Vec<Vec<String>> {
+/// per statement group its statements (what runs between two H4 points), per statement the row operations.
+/// The interior points: one behind the node write of every InsertEntity (site 1), two in DeletionQuery::delete
+/// (behind the edge deletions, behind the node deletions), one between a room mutation and its room changelog entry
+fn ops_of(r: &Req) -> Vec<Vec<Vec<String>>> {
     let put = |k: u64, v: u64, c: u64| format!("Put {} {} {}", gn(c), gn(k), gn(v));
     match r {
         Req::Mut { persons, .. } => {
-            let mut g = vec![];
+            let mut stmts: Vec<Vec<String>> = vec![];
+            let mut cur: Vec<String> = vec![];
             for (p, pets) in persons {
-                g.push(put(*p, *p, 1));
-                for q in pets { g.push(put(*q, *q, 2)); g.push(put(10000 + q, 1, 0)); }
+                cur.push(put(*p, *p, 1));
+                stmts.push(std::mem::take(&mut cur)); // point behind the person's node
+                for q in pets { cur.push(put(10000 + q, 1, 0)); } // the references are inserted before the sub entities
+                for q in pets { cur.push(put(*q, *q, 2)); stmts.push(std::mem::take(&mut cur)); }
             }
-            vec![g]
+            stmts.push(cur);
+            vec![stmts]
         }
-        Req::Upd { target, label } => vec![vec![put(k_setup(*target), *label, 1)]],
-        Req::Del { target } => vec![vec![format!("Del {} {}", gn(1), gn(k_setup(*target)))]],
-        Req::Nodes { labels } => labels.iter().map(|l| vec![put(*l, *l, 1)]).collect(),
-        Req::Room { label } => vec![vec![put(40000 + label, 1, 0), put(45000 + label, 1, 0)]],
-        Req::RoomUpd { label, pet, .. } => { let mut g = vec![put(40000 + label, 1, 0)]; if let Some(q) = pet { g.push(put(*q, *q, 2)); } vec![g] }
-        Req::Compute => vec![vec![]],
-        Req::Write { key } => vec![vec![put(30000 + key, 1, 0)]],
+        Req::Upd { target, label } => vec![vec![vec![put(k_setup(*target), *label, 1)], vec![]]],
+        Req::Del { target } => vec![vec![vec![], vec![format!("Del {} {}", gn(1), gn(k_setup(*target)))], vec![]]],
+        Req::Nodes { labels } => labels.iter().map(|l| vec![vec![put(*l, *l, 1)]]).collect(),
+        // room node, admin entry, authorisation, its right: four InsertEntity, then the point in front of the changelog
+        Req::Room { label } => vec![vec![vec![], vec![put(40000 + label, 1, 0)], vec![], vec![], vec![], vec![put(45000 + label, 1, 0)]]],
+        Req::RoomUpd { label, revoke_pet, pet } => {
+            // room (reference) [, main authorisation (reference), its new right], new authorisation [, the pet], changelog
+            let mut stmts: Vec<Vec<String>> = vec![vec![]];
+            if *revoke_pet { stmts.push(vec![]); stmts.push(vec![]); }
+            stmts.push(vec![put(40000 + label, 1, 0)]);
+            if let Some(q) = pet { stmts.push(vec![put(*q, *q, 2)]); }
+            stmts.push(vec![]); // between the last entity's point and the point in front of the changelog
+            stmts.push(vec![]); // the changelog entry of the (existing) room
+            vec![stmts]
+        }
+        Req::Compute => vec![vec![vec![]]],
+        Req::Write { key } => vec![vec![vec![put(30000 + key, 1, 0)]]],
     }
 }
 fn marks_of(r: &Req) -> Vec<u64> {
@@ -125,10 +142,13 @@ fn auth_of(r: &Req) -> String {
     }
 }
 fn req_coq(r: &Req) -> String {
-    let groups = glist(&ops_of(r).iter().map(|g| glist(g)).collect::<Vec<_>>());
+    let groups = glist(&ops_of(r).iter().map(|g| glist(&g.iter().map(|st| glist(st)).collect::<Vec<_>>())).collect::<Vec<_>>());
     let marks = glist(&marks_of(r).iter().map(|m| gn(*m)).collect::<Vec<_>>());
     format!("(mkReq {} {} {} {})", kind_of(r), groups, marks, auth_of(r))
 }
+
+/// trace entries that are instrumentation points (the others describe the batch about to be written)
+fn is_point(t: &(u8, u8)) -> bool { t.0 <= vf::P_ACK || t.0 >= vf::P_STMT }
 
 // ------------------------------------------------------------------ database access shared by child (live view) and verifier
 fn db_location(dir: &Path, key: &[u8; 32]) -> (PathBuf, [u8; 32]) {
@@ -554,6 +574,37 @@ async fn child(dir: PathBuf, spec: PathBuf, mode: u8, k: u64, out: PathBuf) {
     quit();
 }
 
+// ------------------------------------------------------------------ restart child
+/// `c13 restart <dir> <workload.json> <mode> <k> <out>`: opens an existing folder with the points armed BEFORE
+/// GraphDatabaseService::start, so that the k-th point hit by the start-up writes / the start-up recompute fires
+async fn restart_child(dir: PathBuf, spec: PathBuf, mode: u8, k: u64, out: PathBuf) {
+    let w: Workload = serde_json::from_str(&std::fs::read_to_string(spec).unwrap()).unwrap();
+    let key = key32(&w.key);
+    let log = Log(Arc::new(Mutex::new(std::fs::File::create(&out).unwrap())));
+    let trace = std::fs::File::create(out.with_extension("trace")).unwrap();
+    vf::arm(mode, k, GRACE_MS, Some(trace));
+    let conf = Configuration { parallelism: 1, ..Configuration::default() };
+    let pubkey = derive_key("c13 public", &key);
+    match GraphDatabaseService::start(APP, MODEL, &key, &pubkey, dir.clone(), &conf, EventService::new()).await {
+        Err(e) => { log.line(format!("SF {}", e.to_string().replace('\n', " "))); }
+        Ok((svc, _, _)) => {
+            log.line("SO".to_string());
+            // the closing write behind the start-up recompute
+            let (reply, recv) = tokio::sync::oneshot::channel();
+            let _ = svc.sender.send(DbMessage::DataModel(reply)).await;
+            let _ = tokio::time::timeout(Duration::from_millis(20000), recv).await;
+            let (reply, recv) = tokio::sync::oneshot::channel();
+            let stmt: WriteStmt = Box::new(ConfWrite { key: 998 });
+            let _ = svc.db.writer.send(WriteMessage::Write(stmt, reply)).await;
+            let code = match tokio::time::timeout(Duration::from_millis(20000), recv).await { Ok(Ok(Ok(_))) => 1, Ok(Ok(Err(_))) => 2, _ => 3 };
+            log.line(format!("A 0 {}", code));
+            tokio::time::sleep(Duration::from_millis(3)).await;
+        }
+    }
+    log.line(format!("END {} {}", vf::fired(), vf::hits()));
+    quit();
+}
+
 // ------------------------------------------------------------------ verifier
 async fn verify(dir: PathBuf, spec: PathBuf, out: PathBuf) {
     let w: Workload = serde_json::from_str(&std::fs::read_to_string(spec).unwrap()).unwrap();
@@ -586,7 +637,7 @@ async fn verify(dir: PathBuf, spec: PathBuf, out: PathBuf) {
     let mut p = Parameters::default();
     p.add("room", base64_encode(&ids.room)).unwrap();
     let again = svc.mutate_raw(r#"mutate { ns.Person{ room_id:$room name:"AFTER" } }"#, Some(p)).await.is_ok();
-    println!("{}", json!({"inv0": inv0, "inv1": inv1, "cons1": cons1, "recomputed": recomputed, "vis": vis, "vis0": vis0, "api_ok": api_ok, "again": again, "journal_mode": st1.journal_mode}));
+    println!("{}", json!({"inv0": inv0, "inv1": inv1, "cons1": cons1, "recomputed": recomputed, "vis": vis, "vis0": vis0, "api_ok": api_ok, "again": again, "journal_mode": st1.journal_mode, "closing998": st1.config.contains("verif_998")}));
     quit();
 }
 
@@ -733,9 +784,9 @@ fn build_case(w: &Workload, wid: usize, r: &RunResult, hits_free: u64) -> Case {
     }
     if quiet == 0 { return skip("writer not quiet when the points were armed".into()); }
     if timeouts > 0 { return skip("a phase was not answered within 20 s".into()); }
-    let n_hits = r.trace.iter().filter(|t| t.0 <= vf::P_ACK).count() as i64;
+    let n_hits = r.trace.iter().filter(|t| is_point(t)).count() as i64;
     if r.alive && hits != n_hits { return skip(format!("hits {} but trace has {}", hits, n_hits)); }
-    let last_point = r.trace.iter().filter(|t| t.0 <= vf::P_ACK).last().map(|t| t.0 as i64).unwrap_or(0);
+    let last_point = r.trace.iter().filter(|t| is_point(t)).last().map(|t| t.0 as i64).unwrap_or(0);
     // the fault as it took effect
     let fault = match (r.mode, fired) {
         (m, _) if m == vf::MODE_KILL && !r.alive => format!("(FKill {})", r.k),
@@ -798,6 +849,143 @@ fn build_case(w: &Workload, wid: usize, r: &RunResult, hits_free: u64) -> Case {
         "vis_before_restart": ver["vis0"], "journal_mode": ver["journal_mode"], "requests": flat.iter().map(|(_, q)| format!("{:?}", q)).collect::<Vec<_>>() }) }
 }
 
+// ------------------------------------------------------------------ faults during start
+fn copy_dir(from: &Path, to: &Path) {
+    std::fs::create_dir_all(to).unwrap();
+    for e in std::fs::read_dir(from).unwrap() {
+        let e = e.unwrap();
+        let t = to.join(e.file_name());
+        if e.file_type().unwrap().is_dir() { copy_dir(&e.path(), &t); } else { std::fs::copy(e.path(), &t).unwrap(); }
+    }
+}
+/// one start of a copy of the template folder with the k-th point armed, then the verifier
+fn run_restart(exe: &Path, base: &Path, template: &Path, wid: usize, spec: &Path, mode: u8, k: u64) -> RunResult {
+    let dir = base.join(format!("r{}_{}_{}", wid, mode, k));
+    let _ = std::fs::remove_dir_all(&dir);
+    copy_dir(template, &dir);
+    let out = dir.join("re.txt");
+    let mut res = RunResult { mode, k, alive: false, out: String::new(), trace: vec![], ver: None, err: None, retries: 0 };
+    match std::process::Command::new(exe).arg("restart").arg(&dir).arg(spec).arg(mode.to_string()).arg(k.to_string()).arg(&out)
+        .stdout(std::process::Stdio::null()).stderr(std::process::Stdio::piped()).output() {
+        Ok(o) => {
+            res.out = std::fs::read_to_string(&out).unwrap_or_default();
+            res.alive = res.out.lines().any(|l| l.starts_with("END "));
+            if !res.alive && !(mode == vf::MODE_KILL && o.status.code().is_none()) {
+                res.err = Some(format!("restart child ended unexpectedly: {:?} {}", o.status, String::from_utf8_lossy(&o.stderr).chars().take(600).collect::<String>()));
+            }
+        }
+        Err(e) => res.err = Some(format!("spawn: {}", e)),
+    }
+    let tr = std::fs::read(out.with_extension("trace")).unwrap_or_default();
+    res.trace = tr.chunks(2).filter(|c| c.len() == 2).map(|c| (c[0], c[1])).collect();
+    if res.err.is_none() {
+        for attempt in 0..3 {
+            match std::process::Command::new(exe).arg("verify").arg(&dir).arg(spec).arg(dir.join("acks.txt")).stderr(std::process::Stdio::piped()).output() {
+                Ok(o) if o.status.success() => { res.ver = serde_json::from_slice(&o.stdout).ok(); res.err = if res.ver.is_none() { Some("verifier output unreadable".into()) } else { None }; res.retries = attempt; break; }
+                Ok(o) => res.err = Some(format!("verifier failed: {}", String::from_utf8_lossy(&o.stderr).chars().take(600).collect::<String>())),
+                Err(e) => res.err = Some(format!("spawn verifier: {}", e)),
+            }
+        }
+    }
+    if std::env::var("VERIF_C13_KEEP").is_err() || res.err.is_none() { let _ = std::fs::remove_dir_all(&dir); }
+    res
+}
+/// what the writer sees of a start, from the trace of a fault-free one: the Gallina script
+fn script_of(trace: &[(u8, u8)]) -> Option<String> {
+    let mut steps: Vec<String> = vec![];
+    let mut msgs: Vec<u8> = vec![];
+    let mut started = false;
+    for t in trace {
+        match t.0 {
+            vf::T_MSG => msgs.push(t.1),
+            vf::P_BEGIN => {
+                let mut reqs = vec![];
+                let mut awaited = false;
+                for m in &msgs {
+                    reqs.push(match *m {
+                        13 => "(mkReq KOptimize [] [] ANone)".to_string(),
+                        10 => "(mkReq KCompute [[[]]] [] ANone)".to_string(),
+                        9 if !started => { awaited = true; "(mkReq KWrite [[[]]] [] ANone)".to_string() }
+                        9 => format!("(mkReq KWrite [[[Put {} {} {}]]] [] ANone)", gn(0), gn(30998), gn(1)),
+                        _ => return None,
+                    });
+                }
+                msgs.clear();
+                steps.push(format!("{} {}", if awaited { "SAwait" } else { "SFree" }, glist(&reqs)));
+            }
+            vf::P_START => { started = true; steps.push("SStartPoint".to_string()); }
+            vf::P_START_DONE => steps.push("SDonePoint".to_string()),
+            _ => {}
+        }
+    }
+    Some(glist(&steps))
+}
+fn build_restart_case(w: &Workload, wid: usize, tpl: &RunResult, canon: &[(u8, u8)], script: &str, r: &RunResult) -> Case {
+    let flat = w.flat();
+    let meta_base = json!({"workload": wid, "mode": r.mode, "k": r.k, "phase": "restart"});
+    let skip = |why: String| Case { kind: "unscheduled".into(), coq: "CSkip".into(), obs: vec![], meta: json!({"base": meta_base, "why": why}) };
+    if let Some(e) = &r.err { return Case { kind: "broken-run".into(), coq: "CSkip".into(), obs: vec![-1], meta: json!({"base": meta_base, "error": e}) }; }
+    let ver = r.ver.as_ref().unwrap();
+    // the batches of the workload (template run)
+    let batches = batches_of(&tpl.trace);
+    let mut queues: HashMap<u8, Vec<usize>> = HashMap::new();
+    for (i, (_, q)) in flat.iter().enumerate() { queues.entry(arm_of(q).0).or_default().push(i); }
+    for q in queues.values_mut() { q.reverse(); }
+    let mut assigned: Vec<Vec<usize>> = vec![];
+    for b in &batches {
+        let mut reqs = vec![];
+        for (arm, groups) in b {
+            if *arm == 13 { continue; }
+            match queues.get_mut(arm).and_then(|q| q.pop()) { Some(i) if arm_of(&flat[i].1).1 == *groups => reqs.push(i), _ => return skip("template trace not attributable".into()) }
+        }
+        assigned.push(reqs);
+    }
+    // this start must have seen the same messages as the fault-free start, up to the armed point
+    let mut hits = 0u64;
+    for (i, t) in r.trace.iter().enumerate() {
+        if canon.get(i) != Some(t) { return skip(format!("start differs from the fault-free start at trace entry {}", i)); }
+        if is_point(t) { hits += 1; if r.mode != vf::MODE_RECORD && hits == r.k { break; } }
+    }
+    let (mut fired, mut started, mut closing_ack) = (0i64, 0i64, None);
+    for l in r.out.lines() {
+        let f: Vec<&str> = l.split(' ').collect();
+        match f[0] { "END" => fired = f[1].parse().unwrap(), "SO" => started = 1, "A" => closing_ack = Some(f[2].parse::<i64>().unwrap()), _ => {} }
+    }
+    let fault = match (r.mode, fired) {
+        (m, _) if m == vf::MODE_KILL && !r.alive => format!("(FKill {})", r.k),
+        (m, 1) if m == vf::MODE_FAIL => format!("(FFail {})", r.k),
+        _ => "FNone".to_string(),
+    };
+    let kind = match (r.mode, r.alive, fired) {
+        (m, false, _) if m == vf::MODE_KILL => "restart-kill",
+        (m, _, 1) if m == vf::MODE_FAIL => "restart-fail",
+        (m, _, _) if m == vf::MODE_RECORD => "restart-fault-free",
+        _ => "restart-fault-not-effective",
+    };
+    let vis: Vec<i64> = ver["vis"].as_array().unwrap().iter().map(|v| v.as_i64().unwrap()).collect();
+    let order: Vec<usize> = assigned.iter().flatten().cloned().collect();
+    if order.len() != flat.len() { return skip("template run did not write every request".into()); }
+    let mut obs: Vec<i64> = order.iter().map(|i| vis[*i]).collect();
+    // the closing write: was its batch begun (a batch behind the start point that holds a generic write)
+    let mut seen_start = false; let mut pending9 = false; let mut closing_begun = false;
+    for t in &r.trace {
+        match t.0 { vf::P_START => seen_start = true, vf::T_MSG if seen_start && t.1 == 9 => pending9 = true, vf::P_BEGIN => { if pending9 { closing_begun = true; } pending9 = false; }, _ => {} }
+    }
+    if closing_begun { obs.push(closing_ack.unwrap_or(0)); obs.push(ver["closing998"].as_bool().unwrap_or(false) as i64); }
+    let n_hits = r.trace.iter().filter(|t| is_point(t)).count() as i64;
+    let last_point = r.trace.iter().filter(|t| is_point(t)).last().map(|t| t.0 as i64).unwrap_or(0);
+    let b = |k: &str| ver[k].as_bool().unwrap_or(false) as i64;
+    // started: start() returned Ok (logged by the child at once; a failed start leaves the process alive without service)
+    obs.push(r.alive as i64); obs.push(if r.alive { n_hits } else { last_point }); obs.push(started);
+    obs.push(b("inv0")); obs.push(b("inv1") & b("cons1") & b("recomputed")); obs.push(b("again")); obs.push(b("api_ok")); obs.push(1);
+    let mut init: Vec<String> = (0..w.n_setup).map(|i| format!("({}, {}, {})", gn(k_setup(i)), gn(k_setup(i)), gn(1))).collect();
+    init.push(format!("({}, {}, {})", gn(20100), gn(20100), gn(1)));
+    init.push(format!("({}, {}, {})", gn(20101), gn(20101), gn(2)));
+    let coq = format!("(CRestart {} {} {} {})", glist(&init),
+        glist(&assigned.iter().map(|b| glist(&b.iter().map(|i| req_coq(&flat[*i].1)).collect::<Vec<_>>())).collect::<Vec<_>>()), script, fault);
+    Case { kind: kind.into(), coq, obs, meta: json!({"base": meta_base, "fatal_point": if r.alive { 0 } else { last_point }, "started": started, "closing_ack": closing_ack, "verifier_retries": r.retries}) }
+}
+
 fn parent() {
     let mut out = Out::create();
     let mut rng = Rng::from_env();
@@ -856,7 +1044,7 @@ fn parent() {
     let mut hits_free = vec![0u64; workloads.len()];
     let mut jobs = vec![];
     for (wid, r) in &free {
-        let points: Vec<u8> = r.trace.iter().filter(|t| t.0 <= vf::P_ACK).map(|t| t.0).collect();
+        let points: Vec<u8> = r.trace.iter().filter(|t| is_point(t)).map(|t| t.0).collect();
         hits_free[*wid] = points.len() as u64;
         // quick tier: the batches that hold nothing but a gate / the closing write are harness machinery and all alike:
         // only the first of them is enumerated (thorough: all)
@@ -870,7 +1058,7 @@ fn parent() {
             let bi = batch_of_hit[i];
             if !tier_thorough() && gate_only(bi) && Some(bi) != first_gate { continue; }
             jobs.push((*wid, vf::MODE_KILL, i as u64 + 1));
-            if [vf::P_BEGIN, vf::P_GROUP, vf::P_MARKS, vf::P_COMMIT].contains(p) { jobs.push((*wid, vf::MODE_FAIL, i as u64 + 1)); }
+            if [vf::P_BEGIN, vf::P_GROUP, vf::P_STMT, vf::P_MARKS, vf::P_COMMIT].contains(p) { jobs.push((*wid, vf::MODE_FAIL, i as u64 + 1)); }
         }
     }
     let faulty = run_jobs(jobs);
@@ -887,20 +1075,71 @@ fn parent() {
         *counts.entry(c.kind.clone()).or_default() += 1;
         out.push(c);
     }
-    eprintln!("c13: {} runs repeated", retried);
+
+    // ---- faults during GraphDatabaseService::start: a finished, fault-free workload is the template; every point a
+    // fault-free start of it hits is armed once with kill and, in front of a statement, once with failure
+    let restart_workloads: Vec<usize> = if tier_thorough() { (1..workloads.len()).filter(|w| *w == 1 || (*w >= 4 && *w % 5 == 0)).collect() } else { vec![1] };
+    for wid in restart_workloads {
+        let w = &workloads[wid];
+        if w.phases.iter().flatten().any(|r| matches!(r, Req::RoomUpd { .. })) { continue; }
+        let tdir = base.join(format!("template{}", wid));
+        let _ = std::fs::remove_dir_all(&tdir);
+        std::fs::create_dir_all(&tdir).unwrap();
+        let tout = tdir.join("acks.txt");
+        let ok = std::process::Command::new(&exe).arg("child").arg(&tdir).arg(&specs[wid]).arg("0").arg("0").arg(&tout)
+            .stdout(std::process::Stdio::null()).stderr(std::process::Stdio::null()).status().map(|s| s.success()).unwrap_or(false);
+        let touts = std::fs::read_to_string(&tout).unwrap_or_default();
+        let all_ok = ok && touts.lines().filter(|l| l.starts_with("A ")).all(|l| l.split(' ').nth(2) == Some("1")) && !touts.lines().any(|l| l.starts_with("T "));
+        if !all_ok { eprintln!("c13: template run of workload {} unusable", wid); continue; }
+        let ttrace: Vec<(u8, u8)> = std::fs::read(tout.with_extension("trace")).unwrap_or_default().chunks(2).filter(|c| c.len() == 2).map(|c| (c[0], c[1])).collect();
+        let tpl = RunResult { mode: 0, k: 0, alive: true, out: touts, trace: ttrace, ver: None, err: None, retries: 0 };
+        let canon = run_restart(&exe, &base, &tdir, wid, &specs[wid], vf::MODE_RECORD, 0);
+        let script = match script_of(&canon.trace) { Some(s) => s, None => { eprintln!("c13: start of workload {} not recognised", wid); continue; } };
+        let points: Vec<u8> = canon.trace.iter().filter(|t| is_point(t)).map(|t| t.0).collect();
+        let mut rjobs: Vec<(u8, u64)> = vec![];
+        for (i, p) in points.iter().enumerate() {
+            rjobs.push((vf::MODE_KILL, i as u64 + 1));
+            if [vf::P_BEGIN, vf::P_GROUP, vf::P_STMT, vf::P_MARKS, vf::P_COMMIT].contains(p) { rjobs.push((vf::MODE_FAIL, i as u64 + 1)); }
+        }
+        let queue = Arc::new(Mutex::new(rjobs.into_iter().enumerate().collect::<Vec<_>>()));
+        let results = Arc::new(Mutex::new(vec![]));
+        let mut hs = vec![];
+        for _ in 0..par {
+            let (queue, results, exe, base, tdir, spec) = (queue.clone(), results.clone(), exe.clone(), base.clone(), tdir.clone(), specs[wid].clone());
+            hs.push(std::thread::spawn(move || loop {
+                let job = queue.lock().unwrap().pop();
+                match job { Some((n, (mode, k))) => { let r = run_restart(&exe, &base, &tdir, wid, &spec, mode, k); results.lock().unwrap().push((n, r)); } None => break }
+            }));
+        }
+        for h in hs { h.join().unwrap(); }
+        let mut v = std::mem::take(&mut *results.lock().unwrap());
+        v.sort_by_key(|x| x.0);
+        for r in std::iter::once(&canon).chain(v.iter().map(|x| &x.1)) {
+            let mut c = build_restart_case(w, wid, &tpl, &canon.trace, &script, r);
+            if c.kind == "unscheduled" || c.kind == "broken-run" {
+                retried += 1;
+                let r2 = run_restart(&exe, &base, &tdir, wid, &specs[wid], r.mode, r.k);
+                c = build_restart_case(w, wid, &tpl, &canon.trace, &script, &r2);
+            }
+            *counts.entry(c.kind.clone()).or_default() += 1;
+            out.push(c);
+        }
+    }
     let n = out.n;
     out.finish();
     if std::env::var("VERIF_C13_KEEP").is_err() { let _ = std::fs::remove_dir_all(&base); }
-    eprintln!("c13: {} runs {:?}", n, counts);
+    eprintln!("c13: {} runs {:?}, {} repeated", n, counts, retried);
     let bad = counts.get("unscheduled").cloned().unwrap_or(0) + counts.get("broken-run").cloned().unwrap_or(0);
     if bad * 10 > n { eprintln!("c13: too many runs could not be used ({} of {})", bad, n); std::process::exit(3); }
 }
 
 fn main() {
     let a: Vec<String> = std::env::args().collect();
-    if a.len() >= 2 && (a[1] == "child" || a[1] == "verify") {
+    if a.len() >= 2 && (a[1] == "child" || a[1] == "verify" || a[1] == "restart") {
         let rt = tokio::runtime::Builder::new_multi_thread().worker_threads(2).enable_all().build().unwrap();
-        if a[1] == "child" {
+        if a[1] == "restart" {
+            rt.block_on(restart_child(PathBuf::from(&a[2]), PathBuf::from(&a[3]), a[4].parse().unwrap(), a[5].parse().unwrap(), PathBuf::from(&a[6])));
+        } else if a[1] == "child" {
             rt.block_on(child(PathBuf::from(&a[2]), PathBuf::from(&a[3]), a[4].parse().unwrap(), a[5].parse().unwrap(), PathBuf::from(&a[6])));
         } else {
             rt.block_on(verify(PathBuf::from(&a[2]), PathBuf::from(&a[3]), PathBuf::from(&a[4])));
